@@ -47,6 +47,12 @@ def has_noitem(e):
     return any(has_noitem(c) for c in children(e))
 
 
+def has_binding(e):
+    if e[0] in ('named', 'namedl', 'ovr', 'ovrl'):
+        return True
+    return any(has_binding(c) for c in children(e))
+
+
 def fold(items):
     if not items:
         return None
@@ -221,11 +227,15 @@ class Ref:
             q_, i, b = self.ev(e[2], p, sc)
             if has_noitem(e[2]):
                 self.flags.add('U3')
+            if has_binding(e[2]):
+                self.flags.add('U13')  # a name/override inside the operand of a name/override: the bound value is not documented
             return q_, i, b + [(k, e[1], fold(i))]
         if k in ('ovr', 'ovrl'):
             q_, i, b = self.ev(e[1], p, sc)
             if has_noitem(e[1]):
                 self.flags.add('U3')
+            if has_binding(e[1]):
+                self.flags.add('U13')
             if k == 'ovrl' or len(i) > 1:
                 self.openlist_values = True   # the rule's value is an "open" list (see known finding F-C01-a)
             return q_, i, b + [(k, '@', fold(i))]
